@@ -84,6 +84,10 @@ struct WithoutFeedbackHelper {
                     do_single_feedback(t2, t1.qubit_value(), true, true);
                 } else if (op.gate_type == GateType::CZ) {
                     do_single_feedback(t2, t1.qubit_value(), false, true);
+                } else if (op.gate_type == GateType::XCZ) {
+                    do_single_feedback(t2, t1.qubit_value(), true, false);
+                } else if (op.gate_type == GateType::YCZ) {
+                    do_single_feedback(t2, t1.qubit_value(), true, true);
                 } else {
                     throw std::invalid_argument("Unknown feedback gate.");
                 }
